@@ -26,8 +26,22 @@ Constructs added to `py2lean_num.K` (everything else is inherited unchanged):
     (`for i_it in …; i := i_it`).
 
 Unsupported constructs raise `base.Unsupported` -> `FAILED <module>: reason`, exit 1.
+
+Instrumentation mode (`safe=True`; py2lean_num.SafeMixin through the subclass `SafeMixinV` below): in addition
+`Hdc/Gen/SafeWs2doptvp.lean`, `SafeWs2doptvpCore.lean`, `SafeWs2doptvplc.lean` (namespace `Hdc.Gen.Safe`): the same statements
+plus the flag `bad`.  On top of the checks of the base mixin (`oob` for every subscript, `badSlice` / `badSliceFrom` for every
+slice with an explicit bound - on either side of an assignment -, `eqv d (nat 0)` for every scalar division by a non-literal,
+the flag of the instrumented `ws2d`) `SafeMixinV` adds the two places where NumPy raises on a SHAPE (Hdc/PySafeV.lean):
+  * `a[lo:hi] = <array>`        `badStoreLen lo hi <array>.size`  (`a[:] = <array>`: `lenDiff a.size <array>.size`): the source
+                                does not have exactly the `hi - lo` cells of the target slice (a one-cell source, which NumPy
+                                would broadcast, is flagged too: `PyNpV.npSetSlice` does not broadcast);
+                                `a[lo:hi] = <scalar>` fills: no shape check
+  * `np.round(z, 0, out)`       `lenDiff out.size z.size`
+`np.arange(...)` is a parameter of the generated function (no check); `x <= y`, `return a, b` need no check of their own (their
+operands are checked).  `return a, b` becomes `return ((a, b), bad)`.
 """
 import ast
+import re
 import sys
 from pathlib import Path
 
@@ -122,20 +136,71 @@ class KV(base.K):
         return super().stmt(s, ind)
 
 
+class SafeMixinV(base.SafeMixin):
+    """base.SafeMixin + the shape checks of the slice stores / `np.round(z, 0, out)` that `KV` translates (module docstring).
+    Everything is computed from the Python AST of the statement; the subscripts, slice bounds, divisions and kernel calls inside the
+    operands are found by the inherited `ck`."""
+
+    def array_size(self, v):
+        """`<term>.size` of an array-valued right-hand side (a slice, a kernel call, `np.arange`)"""
+        self._rhs_of_slice_store = True
+        try:
+            ty, term = self.value_term(v)
+        finally:
+            self._rhs_of_slice_store = False
+        if ty != "arrnum":
+            raise base.Unsupported("safe: slice store of " + ty)
+        return term if re.fullmatch(r"[A-Za-z_][A-Za-z0-9_]*", term) else f"({term})"
+
+    def stmt_checks(self, s):
+        out = super().stmt_checks(s)
+        if isinstance(s, ast.Assign):
+            for t in s.targets:
+                if isinstance(t, ast.Subscript) and isinstance(t.slice, ast.Slice):
+                    if len(s.targets) != 1 or not isinstance(t.value, ast.Name) or t.slice.step is not None:
+                        raise base.Unsupported("safe: slice store form")
+                    if self.typeof(s.value) in ("num", "int"):
+                        continue                      # `a[lo:hi] = scalar`: a fill, every shape is accepted
+                    arr, sl = t.value.id, t.slice
+                    size = self.array_size(s.value) + ".size"
+                    if sl.lower is None and sl.upper is None:
+                        out.append(f"PySafeV.lenDiff {arr}.size {size}")
+                    else:
+                        lo = "(0 : Int)" if sl.lower is None else self.iexpr(sl.lower)
+                        hi = f"({arr}.size : Int)" if sl.upper is None else self.iexpr(sl.upper)
+                        out.append(f"PySafeV.badStoreLen {lo} {hi} {size}")
+        elif isinstance(s, ast.Expr) and isinstance(s.value, ast.Call) and isinstance(s.value.func, ast.Attribute):
+            if s.value.func.attr != "round":
+                raise base.Unsupported("safe: expression statement " + ast.unparse(s.value)[:60])
+            a = s.value.args
+            if len(a) != 3 or s.value.keywords or not all(isinstance(x, ast.Name) for x in (a[0], a[2])):
+                raise base.Unsupported("safe: np.round form")
+            out.append(f"PySafeV.lenDiff {a[2].id}.size {a[0].id}.size")
+        return list(dict.fromkeys(out))
+
+    def run(self):
+        self.emit(1, "-- additional checks (py2lean_optvp.SafeMixinV, Hdc/PySafeV.lean): `badStoreLen lo hi k` / `lenDiff n k` = the array stored")
+        self.emit(1, "-- into a slice (by `np.round(z, 0, out)`: into `out`) does not have exactly the cells of the target")
+        return super().run()
+
+
 GU = "(F : VFns α) (rnd : α → α)"
 KERNELS = [
     dict(name="ws2doptvp", module="NumWs2doptvp", file="hdc/algo/ops/ws2doptvp.py", func="ws2doptvp",
          params=[("y", "arrnum"), ("nodata", "num"), ("p", "num"), ("llas", "arrnum"), ("out", "arrnum"), ("lopt", "arrnum")],
-         consts={}, extra=GU, ret=("out", "lopt"), uses="", imports=["Hdc.Gen.Ws2d", "Hdc.PyNpV"], translator=KV),
+         consts={}, extra=GU, ret=("out", "lopt"), uses="", imports=["Hdc.Gen.Ws2d", "Hdc.PyNpV"], translator=KV,
+         safe=True, safe_imports=["Hdc.Gen.SafeWs2d", "Hdc.PySafeV"], safe_mixin=SafeMixinV),
     dict(name="ws2doptvpCore", module="NumWs2doptvpCore", file="hdc/algo/ops/ws2doptvp.py", func="_ws2doptvp",
          params=[("y", "arrnum"), ("w", "arrnum"), ("p", "num"), ("llas", "arrnum")],
          consts={}, extra="(F : VFns α)", ret=None, rty="Array α × α", ret_types=["arrnum", "num"], uses="",
-         imports=["Hdc.Gen.Ws2d", "Hdc.PyNpV"], translator=KV),
+         imports=["Hdc.Gen.Ws2d", "Hdc.PyNpV"], translator=KV,
+         safe=True, safe_imports=["Hdc.Gen.SafeWs2d", "Hdc.PySafeV"], safe_mixin=SafeMixinV),
     dict(name="ws2doptvplc", module="NumWs2doptvplc", file="hdc/algo/ops/ws2doptvplc.py", func="ws2doptvplc",
          params=[("y", "arrnum"), ("nodata", "num"), ("p", "num"), ("lc", "num"), ("out", "arrnum"), ("lopt", "arrnum")],
          consts={"0.5": "c0_5", "1.2": "c1_2", "0.2": "c0_2", "3.2": "c3_2"},
          extra=GU + " (le : α → α → Bool) (arange : α → α → α → Array α) (c0_5 c1_2 c0_2 c3_2 : α)",
-         ret=("out", "lopt"), uses="", imports=["Hdc.Gen.Ws2d", "Hdc.PyNpV"], translator=KV),
+         ret=("out", "lopt"), uses="", imports=["Hdc.Gen.Ws2d", "Hdc.PyNpV"], translator=KV,
+         safe=True, safe_imports=["Hdc.Gen.SafeWs2d", "Hdc.PySafeV"], safe_mixin=SafeMixinV),
 ]
 
 _module_of = base.module_of
